@@ -15,11 +15,16 @@ TOL = 1e-9
 RULE = ('seeded random prescriptions: single surfaces (plane, sphere, conic kappa in {-2,-1,-0.5,0,1}, off-axis conic '
         'shifted in x or y) reflecting and refracting (n<n\' and n>n\' below the critical angle), decentred and tilted '
         '(tilts up to 12 deg about all three axes) or untilted; two- and three-surface systems (singlet + mirror, two-mirror '
-        'telescope, evaluation plane); each traced with a batch of rays aimed at chosen points of the first surface: the ray '
+        'telescope, evaluation plane; a stop/dummy plane or a mirror with n=None INSIDE the glass followed by the glass exit, with '
+        'n_ambient in {1, 1.33}: Snell is checked at every refracting surface against the true indices on both sides); each traced with a batch of rays aimed at chosen points of the first surface: the ray '
         'along the axis of symmetry (exactly r = 0 when untilted), paraxial, skew and steep (up to 50 deg) rays; every '
         'prescription is also traced through the documented single-ray (3,) call form.  Plus unit streams: reflect/refract '
         'with normals of random length, make_rotation_matrix, frame transforms, sag/gradient closures at random points and at '
-        'the exact vertex, the polar->Cartesian gradient at r=0.  A case is non-trivial unless the ray is on-axis through an '
+        'the exact vertex, the polar->Cartesian gradient at r=0; glass->air refraction at strongly sloped surface points (gradient '
+        'length up to 1.8) at 50%..99.9% of the critical angle about the true normal (unit stream and "nearcrit" rays of the '
+        'traces); off_axis_conic_sag/der in both shift branches against the model and against Richardson derivatives of the same '
+        'sag; Q-type freeform surfaces (FFp assembled from Q2d_and_der, base conic unshifted / shifted in x / shifted in y) traced '
+        'in reflection and refraction, checked against the numerical gradient of their own sag (1e-7).  A case is non-trivial unless the ray is on-axis through an '
         'untilted plane; distinct = distinct (item, input) tuples')
 ASSUMPTIONS = ['np.einsum / matmul / hypot / arctan2 / cos / sin / sqrt semantics (modelled; compared at 1e-9)',
                'Newton-Raphson convergence is NOT proved: the model runs the same iteration in Float; only the '
@@ -41,7 +46,8 @@ def build_surface(spec):
     sf = _impl()[0]
     n = spec.get('n', 1.0)
     kw = dict(typ=spec['kind'], P=list(spec['P']), R=(tuple(spec['R']) if spec.get('R') is not None else None))
-    nfun = (lambda wvl, n=n: n)
+    # mirrors and evaluation planes have no index of their own (n=None), exactly as users build them
+    nfun = (lambda wvl, n=n: n) if spec['kind'] in ('refr', 'refract') else None
     sh = spec['shape']
     if sh[0] == 'plane':
         return sf.Surface.plane(n=nfun, **kw)
@@ -251,10 +257,35 @@ def _rays_for(rng, spec, Rm, a, nrays, n_in, backward=False, maxang=None):
     sh = spec['shape']
     n1 = spec.get('n', 1.0)
     Ps, Ss, tags = [], [], []
-    kinds = ['axis', 'parax', 'skew', 'skew', 'steep', 'skew', 'parallel', 'parallel']
+    kinds = ['axis', 'parax', 'skew', 'nearcrit', 'steep', 'skew', 'parallel', 'parallel']
+    dense_to_rare = spec['kind'] in ('refr', 'refract') and n_in > n1
     for i in range(nrays):
         kind = kinds[i % len(kinds)]
-        if kind == 'axis':
+        if kind == 'nearcrit' and not (dense_to_rare and sh[0] != 'plane' and maxang is None):
+            kind = 'skew'
+        if kind == 'nearcrit':
+            Sl = None
+            for _ in range(30):
+                # a strongly sloped surface point, incidence at 50% .. 99.9% of the critical angle about the TRUE normal
+                rad, az = rng.uniform(0.6, 0.9) * a, rng.uniform(0, 2 * math.pi)
+                xl, yl = float(rad * math.cos(az)), float(rad * math.sin(az))
+                _, N = implicit(sh, np.array([xl, yl, _local_sag(sh, xl, yl)]))
+                Nh = N / np.linalg.norm(N)
+                f = 1 - 10 ** (-rng.uniform(0.3, 3.0))
+                th = f * math.asin(n1 / n_in)
+                T = np.cross(Nh, _unit(rng.uniform(0, math.pi), rng.uniform(0, 2 * math.pi)))
+                if np.linalg.norm(T) < 0.2:
+                    continue
+                T /= np.linalg.norm(T)
+                cand = math.cos(th) * Nh + math.sin(th) * T
+                if cand[2] > 0.3:
+                    Sl = cand
+                    break
+            if Sl is None:
+                kind = 'skew'
+        if kind == 'nearcrit':
+            pass
+        elif kind == 'axis':
             xl, yl, th, az = 0.0, 0.0, 0.0, 0.0
         elif kind == 'parax':
             xl, yl = rng.uniform(-1e-3, 1e-3, 2) * a
@@ -269,8 +300,9 @@ def _rays_for(rng, spec, Rm, a, nrays, n_in, backward=False, maxang=None):
         if maxang is not None:
             th = min(th, maxang * (0.2 + 0.8 * rng.uniform()))
         xl, yl = float(xl), float(yl)
-        Sl = _unit(th, az)
-        if spec['kind'] in ('refr', 'refract') and n_in > n1:
+        if kind != 'nearcrit':
+            Sl = _unit(th, az)
+        if dense_to_rare and kind != 'nearcrit':
             # stay below the critical angle with margin: n sin i <= 0.8 n'
             for _ in range(40):
                 _, N = implicit(sh, np.array([xl, yl, _local_sag(sh, xl, yl)]))
@@ -308,12 +340,35 @@ def _rand_frame(rng, tilted, z=0.0):
 def gen_prescription(rng, idx):
     """-> dict(specs=[...], a=semi-aperture, n0=...)"""
     a = float(rng.choice([2.0, 5.0, 12.5]))
-    mode = idx % 6
+    mode = idx % 8
     n0 = 1.0
+    if mode == 6:                           # a stop / dummy plane INSIDE the glass (n=None), then the glass ends
+        n0 = float(rng.choice([1.0, 1.33]))
+        ng = float(rng.choice([1.5168, 1.7, 2.0]))
+        P1, R1 = _rand_frame(rng, tilted=bool(rng.integers(0, 2)))
+        s1 = {'kind': 'refr', 'P': P1, 'R': R1, 'shape': ('conic', float(rng.uniform(0.2, 0.8) * 0.4 / a * rng.choice([-1, 1])), float(rng.choice(KAPPAS[:4]))), 'n': ng}
+        s2 = {'kind': 'eval', 'P': [P1[0], P1[1], P1[2] + 0.3 * a], 'R': None if rng.integers(0, 2) else [0.0, float(rng.uniform(-4, 4))],
+              'shape': ('plane',)}
+        s3 = {'kind': 'refr', 'P': [P1[0], P1[1], P1[2] + 0.6 * a], 'R': None,
+              'shape': ('sphere', float(rng.uniform(0.2, 0.8) * 0.4 / a * rng.choice([-1, 1]))), 'n': float(rng.choice([1.0, 1.33, 1.45]))}
+        specs = [s1, s2, s3]
+        if rng.integers(0, 2):
+            specs.append({'kind': 'eval', 'P': [0.0, 0.0, P1[2] + 2 * a], 'R': None, 'shape': ('plane',)})
+        return {'specs': specs, 'a': 0.5 * a, 'n0': n0, 'maxang': 0.2}
+    if mode == 7:                           # a mirror INSIDE the glass (n=None): in, reflect, out through a surface facing -z
+        n0 = float(rng.choice([1.0, 1.33]))
+        ng = float(rng.choice([1.5168, 1.7]))
+        z0 = float(rng.uniform(-1, 1))
+        s1 = {'kind': 'refr', 'P': [0.0, 0.0, z0], 'R': None, 'shape': ('conic', float(rng.uniform(0.2, 0.8) * 0.3 / a * rng.choice([-1, 1])), float(rng.choice(KAPPAS[:4]))), 'n': ng}
+        s2 = {'kind': 'refl', 'P': [0.0, 0.0, z0 + 0.5 * a], 'R': [0.0, float(rng.uniform(-2, 2))], 'shape': ('plane',) if rng.integers(0, 2) else ('sphere', float(rng.uniform(-0.2, 0.2) / a))}
+        # the exit surface is met travelling towards -z: its frame is turned by 180 deg about y so that the ray runs along local +z
+        s3 = {'kind': 'refr', 'P': [0.0, 0.0, z0 - 0.2 * a], 'R': [0.0, 180.0],
+              'shape': ('conic', float(rng.uniform(0.2, 0.8) * 0.3 / a * rng.choice([-1, 1])), float(rng.choice(KAPPAS[:4]))), 'n': n0}
+        return {'specs': [s1, s2, s3], 'a': 0.4 * a, 'n0': n0, 'maxang': 0.12}
     if mode in (0, 1, 2, 3):               # single surface
         kind = 'refl' if mode in (0, 2) else 'refr'
         P, R = _rand_frame(rng, tilted=mode in (2, 3))
-        if idx % 12 >= 6 and R is None:
+        if idx % 16 >= 8 and R is None:
             P = [0.0, 0.0, P[2]]           # the surface vertex on the global axis, plus plain API forms of P
         spec = {'kind': kind, 'P': P, 'R': R, 'shape': _rand_shape(rng, a)}
         if kind == 'refr':
@@ -339,6 +394,118 @@ def gen_prescription(rng, idx):
            'shape': ('conic', float(cp * rng.uniform(1.5, 2.5)), float(rng.choice([-2.0, -1.0, 0.0])))}
     return {'specs': [prim, sec], 'a': 0.35 * a, 'n0': 1.0, 'maxang': 0.01}
 
+
+
+# ------------------------------------------------------------------------------------------------
+# Q-type freeform surfaces (no Surface constructor in prysm: FFp assembled from Q2d_and_der, as users must) and the public
+# polar off-axis routines: checked against the numerical gradient of their OWN sag (Richardson, 1e-7)
+# ------------------------------------------------------------------------------------------------
+GTOL = 1e-7
+
+
+def _richardson(f, h):
+    d = lambda hh: (f(hh) - f(-hh)) / (2 * hh)          # noqa: E731
+    return (4 * d(h / 2) - d(h)) / 3
+
+
+def q_ffp(cfg):
+    sf = _impl()[0]
+    from prysm.coordinates import cart_to_polar
+
+    def FFp(x, y):
+        x2, y2 = np.asarray(x, dtype=float)[np.newaxis, :], np.asarray(y, dtype=float)[np.newaxis, :]
+        z, dr, dt = sf.Q2d_and_der(cfg['cm0'], cfg['ams'], cfg['bms'], x2, y2, cfg['nr'], cfg['c'], cfg['k'], dx=cfg['dx'], dy=cfg['dy'])
+        r, t = cart_to_polar(x2, y2)
+        fx, fy = sf.surface_normal_from_cylindrical_derivatives(dr, dt, r, t)
+        return z[0], fx[0], fy[0]
+    return FFp
+
+
+def q_config(rng, i):
+    nr = float(rng.choice([8.0, 12.0, 20.0]))
+    amp = 2e-3 * nr / 10
+    shift = [(0.0, 0.0), (float(rng.uniform(0.2, 0.6) * nr * rng.choice([-1, 1])), 0.0),
+             (0.0, float(rng.uniform(0.2, 0.6) * nr * rng.choice([-1, 1])))][i % 3]
+    return {'cm0': [float(v) for v in rng.uniform(-1, 1, 3) * amp],
+            'ams': [[float(v) for v in rng.uniform(-1, 1, 2) * amp], [float(rng.uniform(-1, 1) * amp)]],
+            'bms': [[float(v) for v in rng.uniform(-1, 1, 2) * amp], [float(rng.uniform(-1, 1) * amp)]],
+            'nr': nr, 'c': float(rng.uniform(0.1, 0.3) / nr * rng.choice([-1, 1])), 'k': float(rng.choice(KAPPAS)),
+            'dx': shift[0], 'dy': shift[1], 'kind': 'refl' if (i // 3) % 2 == 0 else 'refr',
+            'n0': 1.0 if (i // 6) % 2 == 0 else 1.6, 'n': 1.5168 if (i // 6) % 2 == 0 else 1.0, 'zP': float(rng.uniform(5, 30))}
+
+
+def q_rays(rng, cfg, N):
+    FFp = q_ffp(cfg)
+    xl = rng.uniform(-0.6, 0.6, N) * cfg['nr']
+    yl = rng.uniform(-0.6, 0.6, N) * cfg['nr']
+    xl[0], yl[0] = 0.31 * cfg['nr'], 0.0          # on the y = 0 meridian and well off it
+    with np.errstate(all='ignore'):
+        z = FFp(xl, yl)[0]
+    S = np.array([_unit(rng.uniform(0, 0.15), rng.uniform(0, 2 * math.pi)) for _ in range(N)])
+    X = np.stack([xl, yl, z + cfg['zP']], axis=1)
+    t = rng.uniform(3, 20, N)[:, None]
+    return X - t * S, S
+
+
+def q_eval(cfg, P, S):
+    """trace rays through the Q-type surface on the REAL code; predicates against the numerical gradient of the same sag"""
+    sf, sm, co = _impl()
+    FFp = q_ffp(cfg)
+    P, S = np.atleast_2d(np.asarray(P, dtype=float)), np.atleast_2d(np.asarray(S, dtype=float))
+    surf = sf.Surface(typ=cfg['kind'], P=[0.0, 0.0, cfg['zP']], n=(lambda w: cfg['n']) if cfg['kind'] == 'refr' else None, FFp=FFp)
+    with np.errstate(all='ignore'):
+        ph, sh = sm.raytrace([surf], P.copy(), S.copy(), 0.6328, n_ambient=cfg['n0'])
+    bad = []
+    h = 1e-3 * cfg['nr']
+    for i in range(len(P)):
+        Pout, Sout = ph[1, i], sh[1, i]
+        if not (np.isfinite(Pout).all() and np.isfinite(Sout).all()):
+            bad.append((i, f'ray lost on the Q-type surface (non-finite output {Pout.tolist()} {Sout.tolist()})'))
+            continue
+        X = Pout - np.array([0.0, 0.0, cfg['zP']])
+        x0, y0 = np.array([X[0]]), np.array([X[1]])
+        with np.errstate(all='ignore'):
+            z0 = float(FFp(x0, y0)[0][0])
+            gx = float(_richardson(lambda e: FFp(x0 + e, y0)[0][0], h))
+            gy = float(_richardson(lambda e: FFp(x0, y0 + e)[0][0], h))
+        if abs(X[2] - z0) > TOL * max(1.0, float(np.abs(X).max())):
+            bad.append((i, f'hit point off the Q-type surface by {X[2] - z0:.3e}'))
+            continue
+        if abs(np.linalg.norm(Sout) - 1) > TOL:
+            bad.append((i, f'|S\'| = {np.linalg.norm(Sout):.12f} != 1'))
+            continue
+        N = np.array([-gx, -gy, 1.0])
+        Nh = N / np.linalg.norm(N)
+        si = S[i]
+        if cfg['kind'] == 'refl':
+            dev = np.abs(Sout - (si - 2 * (si @ Nh) * Nh)).max()
+            if dev > GTOL:
+                bad.append((i, f'Q-type surface (base conic shifted by dx={cfg["dx"]:.3g}, dy={cfg["dy"]:.3g}): reflection is not the mirror '
+                               f'image about the true normal (numerical gradient of the same sag), max dev {dev:.3e}'))
+        else:
+            dev = np.abs(cfg['n'] * np.cross(Sout, Nh) - cfg['n0'] * np.cross(si, Nh)).max()
+            if dev > GTOL * max(cfg['n'], cfg['n0']):
+                bad.append((i, f'Q-type surface (dx={cfg["dx"]:.3g}, dy={cfg["dy"]:.3g}): Snell violated about the true normal, residual {dev:.3e}'))
+    return bad
+
+
+def polar_eval(c):
+    """off_axis_conic_sag / off_axis_conic_der on the REAL code vs the numerical derivatives of the same sag"""
+    sf = _impl()[0]
+    r, t = np.array([c['r']]), np.array([c['t']])
+    kw = dict(dx=c['dx'], dy=c['dy'])
+    with np.errstate(all='ignore'):
+        z = float(sf.off_axis_conic_sag(c['c'], c['k'], r, t, **kw)[0])
+        dr, dt = sf.off_axis_conic_der(c['c'], c['k'], r, t, **kw)
+        nr_ = float(_richardson(lambda e: sf.off_axis_conic_sag(c['c'], c['k'], r + e, t, **kw)[0], 1e-3 * c['r']))
+        nt_ = float(_richardson(lambda e: sf.off_axis_conic_sag(c['c'], c['k'], r, t + e, **kw)[0], 1e-3))
+    dr, dt = float(dr[0]), float(dt[0])
+    bad = []
+    scale = max(1.0, abs(nr_), abs(nt_))
+    if not (np.isfinite([z, dr, dt]).all()) or abs(dr - nr_) > GTOL * scale or abs(dt - nt_) > GTOL * scale:
+        bad.append(f'off_axis_conic_der (dx={c["dx"]:.3g}, dy={c["dy"]:.3g}) returns (d/dr, d/dt) = ({dr:.9g}, {dt:.9g}); the numerical '
+                   f'derivatives of off_axis_conic_sag are ({nr_:.9g}, {nt_:.9g})')
+    return bad, (z, dr, dt)
 
 # ------------------------------------------------------------------------------------------------
 # correspondence
@@ -388,7 +555,7 @@ def correspondence(ctx):
             continue
         mats = [None if s.R is None else np.asarray(s.R, dtype=float) for s in surfs]
         P, S, tags = _rays_for(rng, specs[0], mats[0], pr['a'], nrays, pr['n0'], maxang=pr.get('maxang'))
-        for single in ((False, True) if (idx // 6) % 2 == 0 else (False,)):
+        for single in ((False, True) if (idx // 8) % 2 == 0 else (False,)):
             try:
                 P_hist, S_hist, _ = run_impl(specs, P, S, pr['n0'], single=single)
                 err = None
@@ -414,6 +581,24 @@ def correspondence(ctx):
                 S = gh
         jobs.append(('reflect', S, g))
         lines.append('reflect ' + ' '.join(C.f2w(v) for v in list(S) + list(g)))
+        jobs.append(('refract', n, n1, S, g))
+        lines.append('refract ' + ' '.join(C.f2w(v) for v in [n, n1] + list(S) + list(g)))
+    # glass -> air at strongly sloped surface points (un-normalised gradient of length up to ~1.8), incidence at
+    # 50% .. 99.9% of the critical angle measured from the TRUE normal: must come out finite, unit, obeying Snell
+    for i in range(ctx.scale(150, 3000)):
+        slope, az = rng.uniform(0.4, 1.5), rng.uniform(0, 2 * math.pi)
+        g = np.array([-slope * math.cos(az), -slope * math.sin(az), 1.0])
+        n1 = float(rng.choice([1.0, 1.33]))
+        n = float(n1 * rng.uniform(1.1, 2.4))
+        gh = g / np.linalg.norm(g)
+        T = np.cross(gh, _unit(rng.uniform(0.2, math.pi - 0.2), rng.uniform(0, 2 * math.pi)))
+        if np.linalg.norm(T) < 0.1:
+            T = np.cross(gh, np.array([1.0, 0.0, 0.0]))
+        T /= np.linalg.norm(T)
+        th = (1 - 10 ** (-rng.uniform(0.3, 3.0))) * math.asin(n1 / n)
+        S = math.cos(th) * gh + math.sin(th) * T
+        S /= np.linalg.norm(S)
+        ctx.hist['refract:near-critical-sloped'] += 1
         jobs.append(('refract', n, n1, S, g))
         lines.append('refract ' + ' '.join(C.f2w(v) for v in [n, n1] + list(S) + list(g)))
     for i in range(ctx.scale(60, 600)):
@@ -444,6 +629,19 @@ def correspondence(ctx):
         r, t = math.hypot(x, y), math.atan2(y, x)
         jobs.append(('cyl', fp, ft, r, t))
         lines.append('cyl ' + ' '.join(C.f2w(v) for v in (fp, ft, r, t)))
+    for i in range(ctx.scale(90, 1200)):
+        a = float(rng.choice([2.0, 5.0, 12.5]))
+        s_ = float(rng.uniform(0.3, 1.2) * a * rng.choice([-1, 1]))
+        pc = {'c': float(rng.uniform(0.1, 0.4) / a * rng.choice([-1, 1])), 'k': float(rng.choice(KAPPAS)),
+              'r': float(rng.uniform(0.05, 0.9) * a), 't': float(rng.uniform(-math.pi, math.pi)),
+              'dx': s_ if i % 2 == 0 else 0.0, 'dy': 0.0 if i % 2 == 0 else s_}
+        if i % 10 == 9:
+            pc['t'] = float(rng.choice([0.0, math.pi / 2, math.pi, -math.pi / 2]))
+        amax = (pc['r'] + abs(s_)) ** 2            # stay on the surface: (1+k) c^2 rho^2 <= 0.5 for every azimuth
+        if (1 + pc['k']) * pc['c'] ** 2 * amax > 0.5:
+            pc['c'] = float(math.copysign(math.sqrt(0.5 / ((1 + pc['k']) * amax)), pc['c']))
+        jobs.append(('polar', pc))
+        lines.append('offpolar ' + ' '.join(C.f2w(v) for v in (pc['c'], pc['k'], pc['r'], pc['t'], s_)) + (' 0' if i % 2 == 0 else ' 1'))
     for i in range(ctx.scale(80, 800)):
         P0 = rng.uniform(-5, 5, 3)
         X = rng.uniform(-20, 20, 3)
@@ -525,7 +723,10 @@ def correspondence(ctx):
             if not _cmp(out, m):
                 ctx.disagree('refract', case, out.tolist(), m.tolist())
             gh = g / np.linalg.norm(g)
-            if abs(np.linalg.norm(out) - 1) > TOL:
+            if not np.isfinite(out).all():
+                ctx.pred_fail('refract', case, f'below the critical angle (n sin i / n\' = {n * np.linalg.norm(np.cross(S, gh)) / n1:.6f}) '
+                              f'refract returns {out.tolist()} for a normal vector of length {np.linalg.norm(g):.6f}')
+            elif abs(np.linalg.norm(out) - 1) > TOL:
                 ctx.pred_fail('refract', case, f'|S\'| = {np.linalg.norm(out):.12f} with a normal vector of length {np.linalg.norm(g):.6f}')
             elif np.abs(n1 * np.cross(out, gh) - n * np.cross(S, gh)).max() > TOL * max(n, n1):
                 ctx.pred_fail('refract', case, 'n sin i != n\' sin i\' about the direction of the normal vector')
@@ -571,6 +772,20 @@ def correspondence(ctx):
                 ctx.disagree('cyl_normal', case, got, m)
             if not np.isfinite(got).all():
                 ctx.pred_fail('cyl_normal', case, f'gradient not finite: {got}')
+        elif kind == 'polar':
+            pc = job[1]
+            m = [C.w2f(v) for v in next(rep).split()]
+            ctx.case('off_axis_polar', pc, tag='dx' if pc['dx'] != 0 else 'dy')
+            try:
+                bad, got = polar_eval(pc)
+            except Exception as ex:
+                ctx.disagree('off_axis_polar', pc, f'raised {type(ex).__name__}: {ex}', m)
+                ctx.pred_fail('off_axis_polar', pc, f'off_axis_conic_sag/der raised {type(ex).__name__}: {ex}')
+                continue
+            if not _cmp(list(got), m, max(abs(v) for v in m)):
+                ctx.disagree('off_axis_polar', pc, list(got), m)
+            for b in bad[:1]:
+                ctx.pred_fail('off_axis_polar', pc, b)
         elif kind == 'frames':
             _, P0, Rm, X, S = job
             ml = [C.w2f(v) for v in next(rep).split()]
@@ -585,6 +800,25 @@ def correspondence(ctx):
             if not _cmp(Xb[0], X, 20.0) or not _cmp(Sb[0], S) or abs(np.linalg.norm(Sl[0]) - 1) > TOL \
                     or abs(np.linalg.norm(Xl[0]) - np.linalg.norm(X - P0)) > TOL * 20:
                 ctx.pred_fail('frames', case, 'local/global frame change is not an exact rigid motion')
+
+    _qtype_stream(ctx)
+
+
+def _qtype_stream(ctx):
+    """Q-type surfaces: predicates on the real code only (not modelled in Lean)"""
+    rng = ctx.rng
+    for i in range(ctx.scale(18, 240)):
+        cfg = q_config(rng, i)
+        P, S = q_rays(rng, cfg, ctx.scale(6, 10))
+        try:
+            bad = q_eval(cfg, P, S)
+        except Exception as ex:
+            bad = [(0, f'raised {type(ex).__name__}: {ex}')]
+        for j in range(len(P)):
+            ctx.case('qtype_trace', {**cfg, 'P': P[j].tolist(), 'S': S[j].tolist()},
+                     tag=f'{cfg["kind"]}/{"dx" if cfg["dx"] else ("dy" if cfg["dy"] else "unshifted")}')
+        for (j, b) in bad[:1]:
+            ctx.pred_fail('qtype_trace', {**cfg, 'P': P[j].tolist(), 'S': S[j].tolist()}, b)
 
 
 # ------------------------------------------------------------------------------------------------
@@ -639,9 +873,41 @@ def search(ctx, hints):
         bad, _ = eval_case(c)
         if bad:
             return {'item': 'trace', 'input': c, 'detail': bad[0]}
+    # Q-type surfaces and the public polar routines
+    qrng = np.random.Generator(np.random.PCG64(2024))
+    for i in range(12):
+        cfg = q_config(qrng, i)
+        P, S = q_rays(qrng, cfg, 4)
+        try:
+            bad = q_eval(cfg, P, S)
+        except Exception as ex:
+            bad = [(0, f'raised {type(ex).__name__}: {ex}')]
+        if bad:
+            j, b = bad[0]
+            return {'item': 'qtype_trace', 'input': _jsonable({**cfg, 'P': P[j].tolist(), 'S': S[j].tolist()}), 'detail': b}
+    for (dx, dy) in ((3.0, 0.0), (0.0, 3.0)):
+        for t in (0.7, -2.1):
+            pc = {'c': 0.02, 'k': -1.0, 'r': 4.0, 't': t, 'dx': dx, 'dy': dy}
+            bad, _ = polar_eval(pc)
+            if bad:
+                return {'item': 'off_axis_polar', 'input': pc, 'detail': bad[0]}
     # unit-level predicates
     sf, sm, co = _impl()
     S = np.array([[0.6, 0.0, 0.8]])
+    # glass -> air, sloped point, 97% of the critical angle about the true normal
+    g = np.array([-0.9, 0.0, 1.0])
+    gh = g / np.linalg.norm(g)
+    th = 0.97 * math.asin(1 / 1.5)
+    Sn = math.cos(th) * gh + math.sin(th) * np.array([0.0, 1.0, 0.0])
+    with np.errstate(all='ignore'):
+        try:
+            out = sm.refract(1.5, 1.0, Sn[None, :], g[None, :])[0]
+            ok = bool(np.isfinite(out).all()) and abs(np.linalg.norm(out) - 1) <= TOL
+        except Exception:
+            ok = False
+    if not ok:
+        return {'item': 'refract', 'input': {'n': 1.5, 'nprime': 1.0, 'S': Sn.tolist(), 'r': g.tolist()},
+                'detail': 'refract below the critical angle at a sloped surface point does not return a finite unit vector'}
     for g in ([0.0, 0.0, 1.0], [-0.3, 0.2, 1.0]):
         g = np.array([g])
         with np.errstate(all='ignore'):
@@ -681,6 +947,17 @@ def replay(inp):
         for b in bad:
             print('  ', b)
         return bool(bad)
+    if item == 'qtype_trace':
+        bad = q_eval(c, [c['P']], [c['S']])
+        for _, b in bad:
+            print('  ', b)
+        return bool(bad)
+    if item == 'off_axis_polar':
+        bad, got = polar_eval(c)
+        print('sag, d/dr, d/dt =', got)
+        for b in bad:
+            print('  ', b)
+        return bool(bad)
     if item == 'refract':
         S = np.array([c['S']])
         g = np.array([c['r']])
@@ -693,7 +970,7 @@ def replay(inp):
         gh = g[0] / np.linalg.norm(g[0])
         dev = np.abs(c['nprime'] * np.cross(out, gh) - c['n'] * np.cross(S[0], gh)).max()
         print('S\' =', out.tolist(), '|S\'| =', np.linalg.norm(out), 'Snell residual', dev)
-        return abs(np.linalg.norm(out) - 1) > TOL or dev > TOL * max(c['n'], c['nprime'])
+        return (not np.isfinite(out).all()) or abs(np.linalg.norm(out) - 1) > TOL or dev > TOL * max(c['n'], c['nprime'])
     if item == 'reflect':
         S = np.array(c['S'])
         g = np.array(c['r'])
@@ -748,7 +1025,8 @@ MANIFEST_ENTRY = {
              'Modelled-and-compared only: the whole trace (Newton iteration, per-ray convergence masking, multi-surface '
              'threading of the index), on seeded prescriptions with an independent oracle.'),
     'note': ('NOT proved: convergence of Newton-Raphson (only its post-condition), floating-point error, the batch masking '
-             'bookkeeping, Q-type surfaces (no Surface constructor exists for them; their sag/derivative assembly belongs to C09), '
+             'bookkeeping; Q-type surfaces are not modelled in Lean (no Surface constructor exists for them): they are traced on the '
+             'real code only and checked against the Richardson gradient of their own sag at 1e-7; '
              'refraction of rays that travel against the surface normal.  Trusted: Lean kernel + standard axioms, the ast->Lean '
              'translator for the vector-expression subset (validated by running model vs code), NumPy primitives.'),
 }
